@@ -311,6 +311,19 @@ func (v *UnixVolume) WriteBlock(ctx context.Context, loc string, rdr io.Reader) 
 		v.os.Remove(tmpfile.Name())
 		return err
 	}
+	// If a file already exists at bpath (e.g., a corrupt copy that
+	// CompareAndTouch refused to touch), take the same flock that
+	// Touch and Trash use before replacing it. Otherwise a Trash
+	// that has already examined the old file's timestamp would go
+	// on to trash the new data after this Put has succeeded.
+	if oldf, err := v.os.OpenFile(bpath, os.O_RDWR|os.O_APPEND, 0644); err == nil {
+		defer oldf.Close()
+		if err := v.lockfile(oldf); err != nil {
+			v.os.Remove(tmpfile.Name())
+			return fmt.Errorf("error locking %s: %s", bpath, err)
+		}
+		defer v.unlockfile(oldf)
+	}
 	if err := v.os.Rename(tmpfile.Name(), bpath); err != nil {
 		err = fmt.Errorf("error renaming %s to %s: %s", tmpfile.Name(), bpath, err)
 		v.os.Remove(tmpfile.Name())
